@@ -134,14 +134,19 @@ def sep_cases(tier, seed):
     dims = DIMS_Q if tier == "quick" else DIMS_T
     for dA, dB in dims:
         nterms = 7
-        for k in (1, 2, 3, 4) if tier == "quick" else (1, 2, 3, 4, 5, 6):
-            subsets = list(itertools.combinations(range(nterms), k))
-            if (dA * dB > 6) and tier == "quick":
-                subsets = subsets[:: 3]  # SDP-priced sizes: every third subset
+        big = dA * dB > 6  # sizes where is_separable may end in a symmetric-extension SDP (5 s at 3x3, ~60 s at 4x4)
+        if dA * dB >= 12:
+            ks, stride = (1, 2, 3), 12
+        elif big:
+            ks, stride = ((1, 2, 3, 4), 6) if tier == "quick" else ((1, 2, 3, 4, 5, 6), 2)
+        else:
+            ks, stride = ((1, 2, 3, 4), 1) if tier == "quick" else ((1, 2, 3, 4, 5, 6), 1)
+        for k in ks:
+            subsets = list(itertools.combinations(range(nterms), k))[::stride]
             for idx in subsets:
                 comps = weight_compositions(k)
-                if dA * dB > 6:
-                    comps = comps[:2]
+                if big:
+                    comps = comps[:1] if tier == "quick" else comps[:2]
                 for w in comps:
                     yield {"kind": "separable", "dA": dA, "dB": dB, "idx": list(idx), "w": list(w), "dimform": "list"}
         # argument forms on a few members
